@@ -14,6 +14,7 @@ import (
 	"verif/harness/chain"
 	"verif/harness/h"
 	"verif/harness/pol"
+	"verif/harness/sel"
 	"verif/harness/val"
 )
 
@@ -75,6 +76,11 @@ func run(c *h.Ctx, cs Case) {
 		}
 	}
 	c.P.Class(hookClass)
+	for _, d := range cs.Dev {
+		if d == "twin-keys" {
+			c.P.Class("twin-keys/" + hookClass)
+		}
+	}
 	if d.Allowed && !r.R[8] {
 		where := "hook"
 		if len(r.FalseStmts) > 0 {
@@ -230,6 +236,39 @@ func draw(t *rapid.T) Case {
 		if rapid.IntRange(0, 3).Draw(t, "hookerr") == 0 {
 			cs.Inv.Hook = &chain.Hook{Args: cs.Inv.Args, Err: true}
 		}
+	}
+	if rapid.IntRange(0, 5).Draw(t, "twinfocus") == 3 {
+		// two argument names of which one is the other DECORATED with characters that mean something to a selector
+		// parser, holding neighbouring values, and a statement that is FALSE for the key it names and would be true
+		// for its twin (or for "no such key"): the statement binds the argument it names
+		base := rapid.SampledFrom([]string{"role", "a", "n", "x1"}).Draw(t, "twin_base")
+		deco := fmt.Sprintf(rapid.SampledFrom([]string{"'%s'", "%s?", ".%s", "[%s]", "%s[]", " %s", "%s ", "%s.", "'%s", "%s'", "`%s`", "(%s)", "%s[0]", "$%s", "%s:", "-%s", "['%s']"}).Draw(t, "twin_deco"), base)
+		v := int64(rapid.IntRange(0, 9).Draw(t, "twin_v"))
+		var keep []val.KV
+		for _, e := range cs.Inv.Args {
+			if e.K != base && e.K != deco {
+				keep = append(keep, e)
+			}
+		}
+		withBase := rapid.Bool().Draw(t, "twin_withbase")
+		if withBase {
+			keep = append(keep, val.KV{K: base, V: val.Int(v)})
+		}
+		keep = append(keep, val.KV{K: deco, V: val.Int(v + 1)})
+		cs.Inv.Args = keep
+		if cs.Inv.Hook != nil {
+			// the hook hands back the same argument set: the statement is about the arguments that are checked
+			cs.Inv.Hook.Args = append([]val.KV{}, keep...)
+		}
+		lit := val.Int(v)
+		st := pol.Stmt{Op: "==", Sel: sel.Sel{{Kind: "qfield", Name: deco, Opt: !withBase && rapid.Bool().Draw(t, "twin_opt")}}, Lit: &lit}
+		if withBase && rapid.IntRange(0, 3).Draw(t, "twin_mirror") == 0 {
+			lit2 := val.Int(v + 1)
+			st = pol.Stmt{Op: "==", Sel: sel.Sel{{Kind: "field", Name: base}}, Lit: &lit2}
+		}
+		li := rapid.IntRange(0, n-1).Draw(t, "twin_link")
+		cs.Links[li].Pol = append(append(pol.Policy{}, cs.Links[li].Pol...), st)
+		cs.Dev = append(cs.Dev, "twin-keys")
 	}
 	eff := cs.Inv.Args
 	if cs.Inv.Hook != nil {
